@@ -43,6 +43,9 @@ var c12Programs = [][]string{
 	{"IMUL~CX , 4", "IMUL~ECX , 4608", "SUB~ECX , 128"},
 	{"DB -1 , 2", "MOV [ 0x0ff0 ] , AL", "DW -2 , ( 1 )", `DB "x" , -1`},
 	{"MOV~AL , [ SI ]", "ADD~SI , 1", "CMP~AL , 0", "MOV~AH , 0x0e", "MOV~BX , 15"},
+	// GLOBAL / EXTERN as the FIRST statement of the file (what stands in front of it is then the start of the file)
+	{"GLOBAL~start , fin", "start:", "MOV~AX , 1", "fin:", "RET"},
+	{"EXTERN~ext_sym", "MOV~AX , 1", "HLT"},
 }
 
 func c12Tokens(stmt string) (toks []string, mand []bool) {
@@ -109,7 +112,7 @@ var c12Before = []string{"", "\n", ";c\n", "\t# c\n", "  \t\n"}
 func c12Scenario(bound int, name string) *core.Scenario {
 	return &core.Scenario{
 		Name: name, Bound: bound,
-		Rule:   fmt.Sprintf("26 base programs covering every statement kind, re-laid-out token-wise: every layout that deviates from the canonical one in at most %d places (each gap: alternative whitespace; after each statement: 21 comment/blank-line variants (comments with and without a blank in front of ';' / '#') (incl. comment texts with unbalanced brackets and quotes); before the first statement: 4; line-ending convention LF/CRLF/CR; final newline absent); output and error class must equal the canonical layout's; non-trivial = canonical assembled, emitted >= 1 byte and the layout deviates", bound),
+		Rule:   fmt.Sprintf("28 base programs covering every statement kind, re-laid-out token-wise: every layout that deviates from the canonical one in at most %d places (each gap: alternative whitespace; after each statement: 21 comment/blank-line variants (comments with and without a blank in front of ';' / '#') (incl. comment texts with unbalanced brackets and quotes); before the first statement: 4; line-ending convention LF/CRLF/CR; final newline absent); output and error class must equal the canonical layout's; non-trivial = canonical assembled, emitted >= 1 byte and the layout deviates", bound),
 		Bounds: map[string]any{"programs": len(c12Programs), "deviation_bound": bound, "gap_alternatives": map[string]any{"optional": c12Opt, "mandatory": c12Mand, "leading": c12Lead}, "after_statement": c12After, "before_first": c12Before, "line_endings": []string{"LF", "CRLF", "CR"}},
 		Build: func(c *core.Chooser) *core.Case {
 			pi := c.Pick("prog", len(c12Programs))
@@ -310,6 +313,31 @@ func c12CLI(r *core.Run, tier string) {
 		}
 	}
 	wg.Wait()
+	// a source of ordinary length (the layouts above are a handful of lines): 150 statements, the three line-ending
+	// conventions, with and without a final line terminator
+	{
+		var long strings.Builder
+		for i := 0; i < 50; i++ {
+			fmt.Fprintf(&long, "\tMOV AX,%d\n\tADD [BX+%d],AL ; line %d\n\tDB %d,\"x;y\",0\n", i, i, i, i)
+		}
+		lf := long.String()
+		ref := p.CLI(lf, nil, false)
+		for _, eol := range []string{"\r\n", "\r"} {
+			for _, nofinal := range []bool{false, true} {
+				src := strings.ReplaceAll(lf, "\n", eol)
+				if nofinal {
+					src = strings.TrimSuffix(src, eol)
+				}
+				got := p.CLI(src, nil, false)
+				spawns++
+				if got.ExitCode != ref.ExitCode || !bytes.Equal(got.Out, ref.Out) {
+					r.AddFail("cli_layouts", fmt.Sprintf("150 statements|eol=%q|nofinal=%v", eol, nofinal), map[string]string{"prog": "long", "eol": fmt.Sprintf("%q", eol)}, []string{src, lf},
+						core.Fail{Facet: "cli_layout", Dev: fmt.Sprintf("long_source exit:%d length:%+d", got.ExitCode, len(got.Out)-len(ref.Out)), Detail: fmt.Sprintf("command gives %d bytes (exit %d), the LF form %d bytes (exit %d): %s", len(got.Out), got.ExitCode, len(ref.Out), ref.ExitCode, trunc(got.Stdout, 120))})
+				}
+				r.AddNT(fmt.Sprintf("cli|long|%q|%v", eol, nofinal))
+			}
+		}
+	}
 	r.AddSample(map[string]any{"cli_layout": "program 0 with CR line endings, no final newline, a comment on the last line"})
 	r.AddCustom("cli_layouts", "26 programs x {LF, CRLF, CR} x {final newline, none} x {comment on the last line, none} x {leading comment line, none}, each written to a file and assembled by the REAL command (so the front end's decoding and pre-processing are included); output and exit status must equal the canonical layout's",
 		map[string]any{"programs": len(c12Programs), "variants": len(vs)}, spawns+1, spawns, spawns, nontriv, 1, true, time.Since(t0).Seconds())
